@@ -244,8 +244,10 @@ def _rand_msg(rng, nobj, texts):
 # ---------------------------------------------------------------------------
 # the property restated on the observable result (search / triage only)
 
-def _reference(case):
-    """expected text of every message of the script, by the property's reading"""
+def _reference(case, empty_is_absent=False, long_dates=None):
+    """expected text of every message of the script, by the property's reading
+    (empty_is_absent: the lookup of the pinned code, used to label a mismatch only;
+    long_dates: list collecting the messages with a date expansion of 127+ characters)"""
     table_s, ops_s = case.split(' ')
     table = {}
     if table_s != '-':
@@ -269,7 +271,7 @@ def _reference(case):
     def find(entries, n):
         for k, v in reversed(entries):
             if k == n:
-                return v
+                return None if (empty_is_absent and v == '') else v
         return None
 
     def remove(entries, n):
@@ -335,6 +337,8 @@ def _reference(case):
                     s = const
                 elif kind in DATE_KINDS:
                     s = table.get('%s@%d' % (_hex(const or DATE_KINDS[kind]), total // 1000000), '??')
+                    if long_dates is not None and len(s) >= 127:
+                        long_dates.append(len(outs))
                 elif kind == 'ms':
                     s = '%03d' % (total // 1000 % 1000)
                 elif kind == 'us':
@@ -382,7 +386,7 @@ def _violation(case, ir):
     if ir is None:
         return 'crash', 'no result from the implementation'
     if 'CRASH' in ir:
-        return _label(case, 'crash'), 'memory error / abort in the implementation: ' + ir
+        return _label(case, None, None, 'crash'), 'memory error / abort in the implementation: ' + ir
     prop = ir.split(' ##')[0].strip()
     toks = [] if prop == 'none' else prop.split(' ')
     want = _reference(case)
@@ -392,23 +396,24 @@ def _violation(case, ir):
         if '!via-log:' in t:
             return 'render', 'message %d: text through Logging::log differs from Format::format: %s' % (k, t)
         if t.startswith('E:') or t.startswith('F:') or t == 'badmsg':
-            return _label(case, 'render'), 'message %d: %s' % (k, t)
+            return _label(case, k, None), 'message %d: %s' % (k, t)
         try:
             got = _unhex(t)
         except ValueError:
             return 'render', 'message %d: unparsable result %s' % (k, t[:40])
         if got != w:
-            return _label(case, 'render'), 'message %d rendered as %r, the definition says %r' % (k, got[:200], w[:200])
+            return _label(case, k, got), 'message %d rendered as %r, the definition says %r' % (k, got[:200], w[:200])
     return None
 
 
-def _label(case, default):
-    table_s, ops_s = case.split(' ')
-    if table_s != '-' and any(len(_unhex(e.split('=')[1])) >= 127 for e in table_s.split(',')):
+def _label(case, k, got, default='render'):
+    """which finding explains the mismatch in message k (None: the run died somewhere)"""
+    long_dates = []
+    pinned = _reference(case, empty_is_absent=True, long_dates=long_dates)
+    if (k in long_dates) or (k is None and long_dates):
         return 'strftime-buffer'
-    for o in ops_s.split(';'):
-        if (o.startswith('LA') and o.endswith(':-')) or ((o.startswith('GA') or o.startswith('SO')) and o.endswith(':-')):
-            return 'attr-empty-value'
+    if k is not None and got is not None and k < len(pinned) and got == pinned[k]:
+        return 'attr-empty-value'
     return default
 
 
@@ -451,3 +456,24 @@ def shrink(case):
         rest = ops[:i] + ops[i + 1:]
         if any(o.startswith('M') for o in rest):
             yield _finish(rest)
+
+
+CLAIM = {
+    'text': 'Coq theorems (Properties_C16.v) over an executable model of formatting::Creator / Format and the log '
+            'attribute stores: for every stream expression the definition built is the declared field sequence '
+            '(options apply to the next field only, separators exactly between fields); for every definition, message, '
+            'attribute state and strftime the text is the concatenation in definition order of the field contents, '
+            'each padded to its width on the requested side and never cut; attribute fields show the newest '
+            'definition in the message object, its outer objects, then the global store (also for empty values); '
+            'well-nested scoped attributes leave the attribute state as found. Two defects of the pinned code are '
+            'proved on copies of the old functions (_refuted/_partial) and repaired by fixes/C16-1, C16-2. The model '
+            'is tied to the code by a correspondence check on the text of every message (ASan+UBSan build).',
+    'note': 'trusted: Coq kernel, extraction (ExtrOcamlBasic), the hand-written model incl. the modelled std::ostream '
+            'padding and std::to_string behaviour (validated by correspondence on every run); strftime/localtime are a '
+            'parameter of the theorems, instantiated in the tie by the C library (TZ=UTC, C locale); the harness writes '
+            'the private members of LogMsg (time stamp, pid, thread id, file, function) directly',
+    'technique': 'Coq proof by induction over declarations / fields / scope nesting; model/implementation '
+                 'correspondence with exhaustive small tables (field kinds x widths x alignment, attribute shadowing '
+                 '{absent,empty,value}^3, scope nestings to depth 4) and seeded random scripts',
+    'design_ref': 'DESIGN.md section 5, C16; section 8 row 30',
+}
